@@ -36,6 +36,29 @@ def _calls(fn):
     return names, supers
 
 
+def _nraise(fn):
+    return sum(isinstance(n, ast.Raise) for n in ast.walk(fn)) if fn is not None else 0
+
+
+def _raises(fn, exc):
+    if fn is None:
+        return False
+    for n in ast.walk(fn):
+        if isinstance(n, ast.Raise) and isinstance(n.exc, ast.Call) and isinstance(n.exc.func, ast.Name) and n.exc.func.id == exc:
+            return True
+    return False
+
+
+def _first_stmt_calls(classes, cls, meth, what):
+    """the first statement of the method body (after a docstring) is a call of `what`"""
+    fn = classes.get(cls, {}).get("methods", {}).get(meth)
+    if fn is None:
+        return False
+    body = [st for st in fn.body if not (isinstance(st, ast.Expr) and isinstance(st.value, ast.Constant))]
+    st = body[0] if body else None
+    return isinstance(st, ast.Expr) and isinstance(st.value, ast.Call) and isinstance(st.value.func, ast.Name) and st.value.func.id == what
+
+
 def parse_classes():
     classes = {}
     for fn in sorted(glob.glob(os.path.join(REPO, "linear_operator", "operators", "*.py"))):
@@ -111,7 +134,7 @@ def extract():
         ("inv_quad:_matmul_broadcast_shape", has("inv_quad", "_matmul_broadcast_shape")),
         ("inv_quad:is_square", has("inv_quad", ".is_square")),
         ("solve:is_square", has("solve", ".is_square")),
-        ("solve:rhs-shape-check", has("solve", "numel") or has("solve", "_matmul_broadcast_shape")),
+        ("solve:_matmul_broadcast_shape", has("solve", "_matmul_broadcast_shape")),
         ("inv_quad_logdet:is_square", has("inv_quad_logdet", ".is_square")),
         ("add_diagonal:is_square", has("add_diagonal", ".is_square")),
         ("add_diagonal:expand", has("add_diagonal", "expand")),
@@ -120,6 +143,26 @@ def extract():
         ("expand:_expand_batch", has("expand", "_expand_batch")),
         ("expand:raises", any(isinstance(n, ast.Raise) for n in ast.walk(base["expand"])) if "expand" in base else False),
         ("__getitem__:_compute_getitem_size", has("__getitem__", "_compute_getitem_size")),
+        ("__getitem__:raises IndexError", _raises(base.get("__getitem__"), "IndexError")),
+        ("__getitem__:tensor max/min check", has("__getitem__", "max") and has("__getitem__", "min")),
+        ("expand:batch check (>= 2 raises besides the argument-type one)", _nraise(base.get("expand")) >= 3),
+    ]
+
+    def chas(cls, meth, what):
+        fn = classes.get(cls, {}).get("methods", {}).get(meth)
+        return fn is not None and what in _calls(fn)[0]
+    base_guards += [
+        ("DiagLinearOperator.matmul:_matmul_broadcast_shape", chas("DiagLinearOperator", "matmul", "_matmul_broadcast_shape")),
+        ("DiagLinearOperator.matmul:guard is the first statement", _first_stmt_calls(classes, "DiagLinearOperator", "matmul", "_matmul_broadcast_shape")),
+        ("DiagLinearOperator.inv_quad_logdet:_matmul_broadcast_shape", chas("DiagLinearOperator", "inv_quad_logdet", "_matmul_broadcast_shape")),
+        ("IdentityLinearOperator._maybe_reshape_rhs:_matmul_broadcast_shape", chas("IdentityLinearOperator", "_maybe_reshape_rhs", "_matmul_broadcast_shape")),
+        ("IdentityLinearOperator._maybe_reshape_rhs:guard is the first statement", _first_stmt_calls(classes, "IdentityLinearOperator", "_maybe_reshape_rhs", "_matmul_broadcast_shape")),
+        ("IdentityLinearOperator.inv_quad_logdet:_matmul_broadcast_shape", chas("IdentityLinearOperator", "inv_quad_logdet", "_matmul_broadcast_shape")),
+        ("IdentityLinearOperator:no _mul_matrix override", "_mul_matrix" not in classes.get("IdentityLinearOperator", {}).get("methods", {})),
+        ("ZeroLinearOperator.matmul:_matmul_broadcast_shape", chas("ZeroLinearOperator", "matmul", "_matmul_broadcast_shape")),
+        ("ZeroLinearOperator.__add__:broadcast_shapes", chas("ZeroLinearOperator", "__add__", "broadcast_shapes")),
+        ("LowRankRootAddedDiagLinearOperator.solve:_matmul_broadcast_shape", chas("LowRankRootAddedDiagLinearOperator", "solve", "_matmul_broadcast_shape")),
+        ("KroneckerProductTriangularLinearOperator.solve:_matmul_broadcast_shape", chas("KroneckerProductTriangularLinearOperator", "solve", "_matmul_broadcast_shape")),
     ]
     # utils: the guard itself and the range check
     bt = ast.parse(open(os.path.join(REPO, "linear_operator", "utils", "broadcasting.py")).read())
